@@ -83,6 +83,36 @@ impl Scope {
     }
 }
 
+/// Forget everything recorded about the variable `name`. Must be called whenever a binder
+/// introduces `name` in the current scope, because narrowings and provenance are keyed by *name*:
+/// without this, a rebound variable (`z = A[4], z = 0x01`) would still be read at the narrowed
+/// type of its previous binding, and narrowing either binding would leak into values derived
+/// from the other (`x = m, m = &h`).
+///
+/// Narrowings are dropped from the current scope only: it becomes the binding's scope, and
+/// lookups never consult the narrowings of scopes outside the binding's. Provenance links are
+/// cut in every scope, since an outer `p = [m, 2]` would otherwise resolve `p.0` to the new,
+/// shadowing `m`. (Cutting a link only loses precision.)
+pub fn forget_variable(scopes: &mut [Scope], name: &str) {
+    if let Some(scope) = scopes.last_mut() {
+        scope.narrowings.variables.remove(name);
+        scope
+            .narrowings
+            .fields
+            .retain(|(provenance, _, _)| !provenance.mentions_variable(name));
+    }
+    for scope in scopes.iter_mut() {
+        for binding in scope.bindings.values_mut() {
+            if let Binding::Variable { provenance, .. } = binding {
+                provenance.forget_variable(name);
+            }
+        }
+        if let Some(parameter) = &mut scope.parameter {
+            parameter.provenance.forget_variable(name);
+        }
+    }
+}
+
 /// Define a new variable in the current scope
 /// Returns the allocated local index for the variable
 pub fn define_variable(
@@ -96,6 +126,7 @@ pub fn define_variable(
     let full_name = helpers::make_capture_name(name, accessors);
     let index = *local_count;
     *local_count += 1;
+    forget_variable(scopes, &full_name);
     if let Some(scope) = scopes.last_mut() {
         scope.bindings.insert(
             full_name,
